@@ -241,8 +241,9 @@ class CallMixin:
             lo, hi = a
         else:
             raise Unsupported("range step")
-        n = z3.If(hi > lo, hi - lo, 0)
-        return Sym("pyobj", None, None, ("iterview", IterView(n, lambda k, st_: S_int(lo + k), None, Spec("int"))))
+        zero = z3.is_int_value(lo) and lo.as_long() == 0
+        n = z3.If(hi > 0, hi, 0) if zero else z3.If(hi > lo, hi - lo, 0)
+        return Sym("pyobj", None, None, ("iterview", IterView(n, (lambda k, st_: S_int(k)) if zero else (lambda k, st_: S_int(lo + k)), None, Spec("int"))))
 
     def b_reversed(self, node, st):
         view = self.iter_view(self.eval(node.args[0], st), st, node)
